@@ -7,7 +7,6 @@ Local Open Scope N_scope.
 Section Obj.
 Context {W : World} {WOK : WorldOk W}.
 
-Definition nz (t : list (N * N)) : Prop := forall k v, find t k = Some v -> v <> 0.
 Definition dh_of (l : list N) : option hash := match l with [] => None | _ => Some (h_dlgs l) end.
 
 (* the content-addressed store is consistent *)
@@ -68,9 +67,10 @@ Proof.
     intros h t' H. unfold open_stor in *. cbn [db_add_stor d_stor].
     destruct (heqb h (root_stor [])); [exact H|]. rewrite hfind_cons.
     destruct (heqb (root_stor t) h) eqn:E; [|exact H].
-    apply heqb_eq in E. subst h. destruct (db_stor d D _ _ H) as (Hr & _). apply root_stor_inj in Hr. subst. reflexivity.
+    apply heqb_eq in E. subst h. destruct (db_stor d D _ _ H) as (Hr & Hs' & Hn').
+    apply root_stor_inj in Hr; try assumption. subst. reflexivity.
   - unfold open_stor. cbn [db_add_stor d_stor]. destruct (heqb (root_stor t) (root_stor [])) eqn:E.
-    + apply heqb_eq, root_stor_inj in E. subst. reflexivity.
+    + apply heqb_eq, root_stor_inj in E; try assumption; [subst; reflexivity|constructor|intros k v; discriminate].
     + rewrite hfind_cons, heqb_refl. reflexivity.
 Qed.
 
